@@ -51,7 +51,28 @@ func buildScenarios(c *vkit.Ctx) []e2e.Scenario {
 			out = append(out, sc)
 			continue
 		}
-		out = append(out, e2e.GenScenario(r, fam, i, opt))
+		sc := e2e.GenScenario(r, fam, i, opt)
+		if i%3 == 1 && len(sc.Gens) > 0 && len(sc.Gens[0].Conns) > 0 {
+			// long first records: the first record of every key set is longer than the 1 KiB pooling threshold, so whatever the
+			// pipeline keeps from it (key_* label values, metric-key label values) without copying lives in a pooled buffer that
+			// is released, poisoned (vhook.Poison) and reused by the records that follow
+			cs := &sc.Gens[0].Conns[0]
+			var head []e2e.Rec
+			for k, app := range []string{"appA", "appB", "appC", "appD", "appE"} {
+				head = append(head, e2e.Rec{Conn: cs.ID, App: app, Sev: []int{6, 3, 4, 7, 1}[(k/2)%5], Host: []string{"h1", "h2"}[k%2], Kind: "plain", Pad: 1100 + r.Intn(2500)})
+			}
+			cs.Recs = append(head, cs.Recs...)
+			for q := range cs.Recs {
+				cs.Recs[q].Seq = q + 1
+			}
+			cs.StartMs = 0
+			for k := 1; k < len(sc.Gens[0].Conns); k++ {
+				if sc.Gens[0].Conns[k].StartMs < 10 {
+					sc.Gens[0].Conns[k].StartMs = 10 // the long records come first
+				}
+			}
+		}
+		out = append(out, sc)
 	}
 	return out
 }
